@@ -196,8 +196,6 @@ def run_case(case, seed):
                 if g.shape != stacked[kp].shape or not np.array_equal(g, stacked[kp]):
                     bad("C16/map/stack-order", f"rollout block {kp} is not the n predictions in time order per channel")
                     break
-        if tuple(got.is_torus) != tuple(x0.is_torus) or got.D != D:
-            bad("C16/map/meta", "rollout lost D / boundary flags")
         # single step function on the first step (direct call), also with a dict given as signature tuple
         pred0 = geom.MultiImage({kp: jnp.asarray(preds[0][kp]) for kp in preds[0]}, D, x0.is_torus)
         nxt = ml.autoregressive_step(x0, pred0, past, const_dict)
